@@ -185,13 +185,11 @@ class TdMpsJob(object):
         os.makedirs(self.dump_dir, exist_ok=True)
         file_path = os.path.join(self.dump_dir, self.job_name + ".npz")
         bak_path = file_path + ".bak"
-        if os.path.exists(file_path):
-            # in case of shutdown while dumping
-            if os.path.exists(bak_path):
-                os.remove(bak_path)
-            os.rename(file_path, bak_path)
-
-        np.savez(file_path, **d)
+        # in case of shutdown while dumping: write to a temporary name and move it into place atomically, so that
+        # `file_path` (or a backup left by an earlier crash) is a complete file at every instant
+        tmp_path = os.path.join(self.dump_dir, self.job_name + ".tmp.npz")
+        np.savez(tmp_path, **d)
+        os.replace(tmp_path, file_path)
 
         if os.path.exists(bak_path):
             os.remove(bak_path)
